@@ -171,6 +171,13 @@ def cons_attrs(cons, ctx):
     return attrs
 
 
+class Marker:
+    """a foreign metadata object inside Annotated[...] (tools ignore the metadata they do not know)"""
+
+    def __init__(self, name):
+        self.name = name
+
+
 class Ctx:
     """the real objects one case talks about (built inside the worker)"""
 
@@ -188,7 +195,8 @@ class Ctx:
         self.mod = pytypes.ModuleType(f"c01_case_{os.getpid()}_{_SEQ[0]}")
         sys.modules[self.mod.__name__] = self.mod
         g = self.mod.__dict__
-        g.update({n: getattr(typing, n) for n in ("Any", "List", "Set", "FrozenSet", "Deque", "Tuple", "Dict", "Optional", "Union")})
+        g.update({n: getattr(typing, n) for n in ("Any", "List", "Set", "FrozenSet", "Deque", "Tuple", "Dict", "Optional", "Union",
+                                                  "Generator", "AsyncGenerator", "Annotated")})
         g.update(Schema=Schema, Field=Field, Options=Options, Rule=Rule, utype=utype, combine=LogicalType.combine,
                  NoneType=type(None), Decimal=Decimal, UUID=UUID, date=date, datetime=datetime, time=time,
                  timedelta=timedelta, deque=deque)
@@ -211,7 +219,6 @@ class Ctx:
                 g[f"O{k}"] = make_options(d["opts"])
                 body += f"    __options__ = O{k}\n"
             for i, f in enumerate(d["fields"]):
-                ann = self.ann(f, k)
                 kw = {}
                 if "default" in f:
                     kw["default"] = c12.dec(f["default"], self.enums)
@@ -222,11 +229,7 @@ class Ctx:
                 if f.get("discriminator"):
                     kw["discriminator"] = f["discriminator"]
                 kw.update(cons_attrs(f.get("fcons"), self))
-                if kw:
-                    g[f"F{k}_{i}"] = Field(**kw)
-                    body += f"    {f['name']}: {ann} = F{k}_{i}\n"
-                else:
-                    body += f"    {f['name']}: {ann}\n"
+                body += "    " + self.decl(f, k, f"F{k}_{i}", Field, kw) + "\n"
             for i, ov in enumerate(d.get("overrides") or []):
                 # an inherited typed field re-declared WITHOUT annotation: a bare default, or a bare Field(...)
                 if ov["kind"] == "default":
@@ -241,19 +244,35 @@ class Ctx:
         # the top declaration (both collect_errors settings) comes BEFORE the late classes: a string annotation naming one
         # of them can only be evaluated at first use
         via = case.get("via")
+        if via == "gen":
+            # a generator function: Generator[Yield, Send, Return]; the body yields the given raw values, records what it is
+            # sent and returns the given raw value
+            gd = case["gen"]
+            slots = [self.ann({"ty": gd[x]}, -1) if gd.get(x) is not None else "None" for x in ("yield", "send", "ret")]
+            for c in (0, 1):
+                g[f"TOPO{c}"] = make_options(case.get("opts") or {}, bool(c))
+                g[f"SEEN{c}"] = []
+                if gd.get("async"):
+                    # an async generator has no return slot
+                    src += (f"@utype.parse(options=TOPO{c}, eager={bool(gd.get('eager'))})\n"
+                            f"async def topg{c}(yv, rv) -> AsyncGenerator[{', '.join(slots[:2])}]:\n"
+                            f"    for y in yv:\n        s = yield y\n        SEEN{c}.append(s)\n")
+                else:
+                    src += (f"@utype.parse(options=TOPO{c}, eager={bool(gd.get('eager'))})\n"
+                            f"def topg{c}(yv, rv) -> Generator[{', '.join(slots)}]:\n"
+                            f"    for y in yv:\n        s = yield y\n        SEEN{c}.append(s)\n    return rv\n")
         if via in ("field", "param", "return", "fn"):
             from utype import Param
             for c in (0, 1):
                 g[f"TOPO{c}"] = make_options(case.get("opts") or {}, bool(c))
                 fc = cons_attrs(case.get("fcons"), self)
+                top = {"name": "f", "ty": case["ty"], "strann": case.get("strann"), "annotated": case.get("annotated")}
                 if via == "field":
-                    g["TOPF"] = Field(**fc) if fc else None
-                    src += f"class TopS{c}(Schema):\n    __options__ = TOPO{c}\n    f: {self.ann(case, -1)}" + (" = TOPF\n" if fc else "\n")
+                    src += f"class TopS{c}(Schema):\n    __options__ = TOPO{c}\n    " + self.decl(top, -1, "TOPF", Field, dict(fc)) + "\n"
                 elif via == "param":
-                    g["TOPF"] = Param(**fc) if fc else None
-                    src += f"@utype.parse(options=TOPO{c})\ndef topf{c}(f: {self.ann(case, -1)}" + (" = TOPF" if fc else "") + "):\n    return f\n"
+                    src += f"@utype.parse(options=TOPO{c})\ndef topf{c}(" + self.decl(top, -1, "TOPF", Param, dict(fc)) + "):\n    return f\n"
                 elif via == "return":
-                    src += f"@utype.parse(options=TOPO{c})\ndef topr{c}(f) -> {self.ann(case, -1)}:\n    return f\n"
+                    src += f"@utype.parse(options=TOPO{c})\n{'async ' if case.get('async') else ''}def topr{c}(f) -> {self.ann(case, -1)}:\n    return f\n"
                 else:
                     fn = case["fn"]
                     parts, names = [], []
@@ -262,11 +281,7 @@ class Ctx:
                         if "default" in f:
                             kw["default"] = c12.dec(f["default"], self.enums)
                         names.append(f["name"])
-                        if kw:
-                            g[f"P{i}"] = Param(**kw)
-                            parts.append(f"{f['name']}: {self.ann(f, -1)} = P{i}")
-                        else:
-                            parts.append(f"{f['name']}: {self.ann(f, -1)}")
+                        parts.append(self.decl(f, -1, f"P{i}", Param, kw))
                     if fn.get("varargs") is not None:
                         parts.append(f"*rest: {self.ann({'ty': fn['varargs']}, -1)}")
                     if fn.get("varkw") is not None:
@@ -287,8 +302,38 @@ class Ctx:
                 src += f"    {name} = LC{k}_{n}\n"
         self.src = src
         if src:
-            exec(compile(src, self.mod.__name__, "exec"), g)
+            # (compile() would inherit this file's own `from __future__ import annotations`: every annotation of every generated
+            # module would silently be a string.  The flag is a property of the case: cases written before it existed have it on)
+            import __future__
+            fut = __future__.annotations.compiler_flag if case.get("future", True) else 0
+            exec(compile(src, self.mod.__name__, "exec", flags=fut, dont_inherit=True), g)
         self.datas = [g[f"D{k}{self.sfx}"] for k in range(len(case.get("datas", [])))]
+
+    def decl(self, f, cur, var, make, kw, sep=" = ") -> str:
+        """`name: T = Field(...)`, or — with `annotated` — `name: Annotated[T, m0, m1, …]` where the Field / Param sits at any
+        position among doc strings and foreign marker objects (and a default, if any, is written after `=`)"""
+        ann = self.ann(f, cur)
+        a = f.get("annotated")
+        if a and kw:
+            default = kw.pop("default", None) if "default" in kw else None
+            has_default = "default" in f
+            metas = []
+            for i in range(a["n"]):
+                if i == a["pos"]:
+                    self.g[var] = make(**kw)
+                    metas.append(var)
+                else:
+                    self.g[f"{var}_m{i}"] = (f"doc {i}: {f.get('name', 'f')}" if (i + a.get("salt", 0)) % 2 == 0 else Marker(f"m{i}"))
+                    metas.append(f"{var}_m{i}")
+            out = f"{f.get('name', 'f')}: Annotated[{ann}, {', '.join(metas)}]"
+            if has_default:
+                self.g[f"{var}_d"] = default
+                out += f"{sep}{var}_d"
+            return out
+        if kw:
+            self.g[var] = make(**kw)
+            return f"{f.get('name', 'f')}: {ann}{sep}{var}"
+        return f"{f.get('name', 'f')}: {ann}"
 
     def ann(self, f, cur) -> str:
         """annotation source of a field / parameter descriptor; `strann`: the whole annotation written as a string"""
@@ -606,6 +651,23 @@ def conforms_fn(fn, res, ctx, opts):
         conforms(fn["varkw"], x, ctx, opts, 1)
 
 
+def conforms_gen(gd, res, ctx, opts):
+    """a decorated generator function, `Generator[Yield, Send, Return]`: what it yields comes out converted to `Yield`, what
+    it is sent arrives converted to `Send`, what it returns comes out (as StopIteration.value) converted to `Return` — falsy
+    values included.  `None` is exempt in the send and return slots: it is how "nothing sent" / "no return statement" look."""
+    if not (isinstance(res, dict) and set(res) == {"yields", "sent", "ret"}):
+        raise Viol("type", "any", _tn(res))
+    if gd.get("yield") is not None:
+        for x in res["yields"]:
+            conforms(gd["yield"], x, ctx, opts, 1)
+    if gd.get("send") is not None:
+        for x in res["sent"]:
+            if x is not None:
+                conforms(gd["send"], x, ctx, opts, 1)
+    if gd.get("ret") is not None and res["ret"] is not None:
+        conforms(gd["ret"], res["ret"], ctx, opts, 1)
+
+
 def conforms(d, r, ctx, opts, depth=0):
     """raises Viol when `r` does not conform to the declared descriptor `d`"""
     if depth > 60:
@@ -777,10 +839,49 @@ def build_call(case, ctx, collect):
         return (lambda v: fn(f=v)), ("param", fn), g[f"TOPO{c}"]
     if via == "return":
         fn = g[f"topr{c}"]
+        if case.get("async"):
+            import asyncio
+            return (lambda v: asyncio.run(fn(f=v))), ("return", fn), g[f"TOPO{c}"]
         return (lambda v: fn(f=v)), ("return", fn), g[f"TOPO{c}"]
     if via == "fn":
         fn = g[f"topfn{c}"]
         return (lambda v: fn(*v["args"], **v["kwargs"])), ("fn", fn), g[f"TOPO{c}"]
+    if via == "gen":
+        fn = g[f"topg{c}"]
+        seen = g[f"SEEN{c}"]
+
+        async def arun(v):
+            gen = fn(list(v["yields"]), v["ret"])
+            outs, i = [], 0
+            try:
+                item = await gen.__anext__()
+                while True:
+                    outs.append(item)
+                    snd = v["sends"][i] if i < len(v["sends"]) else None
+                    i += 1
+                    item = await (gen.asend(snd) if snd is not None else gen.__anext__())
+            except StopAsyncIteration:
+                pass
+            return {"yields": outs, "sent": list(seen), "ret": None}
+
+        def run(v):
+            del seen[:]
+            if case["gen"].get("async"):
+                import asyncio
+                return asyncio.run(arun(v))
+            gen = fn(list(v["yields"]), v["ret"])
+            outs, i = [], 0
+            try:
+                item = next(gen)
+                while True:
+                    outs.append(item)
+                    snd = v["sends"][i] if i < len(v["sends"]) else None
+                    i += 1
+                    item = gen.send(snd) if snd is not None else next(gen)
+            except StopIteration as stop:
+                ret = stop.value
+            return {"yields": outs, "sent": list(seen), "ret": ret}
+        return run, ("gen", fn), g[f"TOPO{c}"]
     raise ValueError(via)
 
 
@@ -791,6 +892,8 @@ def introspect(handle, ctx, options):
         kind, obj = handle
         if kind == "fn":
             raise Unsupported("function with typed *args / **kwargs (oracle only)")
+        if kind == "gen":
+            raise Unsupported("generator yield / send / return slots (oracle only)")
         p = obj.__parser__
         p.resolve_forward_refs()
         if kind == "return":
@@ -804,6 +907,9 @@ def introspect(handle, ctx, options):
 
 
 def dec_case_value(case, ctx):
+    if case["via"] == "gen":
+        v = case["value"]
+        return {"yields": [dec(x, ctx) for x in v["yields"]], "sends": [dec(x, ctx) for x in v["sends"]], "ret": dec(v["ret"], ctx)}
     if case["via"] == "fn":
         v = case["value"]
         return {"args": [dec(x, ctx) for x in v["args"]], "kwargs": {k: dec(x, ctx) for k, x in v["kwargs"].items()}}
@@ -857,7 +963,9 @@ def impl(case):
             for key, res in (("out", live), ("out_collect", locals().get("live_c"))):
                 if key in out and "ok" in out[key]:
                     try:
-                        if case["via"] == "fn":
+                        if case["via"] == "gen":
+                            conforms_gen(case["gen"], res, ctx, o)
+                        elif case["via"] == "fn":
                             conforms_fn(case["fn"], res, ctx, o)
                         else:
                             conforms(case["ty"], res, ctx, o)
@@ -1117,7 +1225,7 @@ def pyprims_for(case, io) -> dict:
 
 
 def model_line(case, io):
-    if "tree" not in io or case["via"] == "fn":
+    if "tree" not in io or case["via"] in ("fn", "gen"):
         return None
     line = {"env": io["env"], "fuel": FUEL, "prims": {}, "pyprims": pyprims_for(case, io)}
     if case["via"] == "init":
@@ -1918,7 +2026,12 @@ def gen_late_case(rng):
             k = rng.randrange(len(lates))
             ty = {"late": k}
             base = lates[k]["rule"]["base"]["t"]
-            fc = gen_fcons(rng, base, lates[k]["rule"]["cons"]) if rng.random() < 0.75 else []
+            cons0 = lates[k]["rule"]["cons"]
+            if rng.random() < 0.35:
+                # the same use-site constraints on a type that is known at declaration time
+                ty = dict(lates[k]) if rng.random() < 0.5 else {"t": base}
+                cons0 = cons0 if "rule" in ty else []
+            fc = gen_fcons(rng, base, cons0) if rng.random() < 0.75 else []
             f = {"ty": ty}
             if allow_gen and rng.random() < 0.3:
                 kind = rng.choice(["list", "list", "opt", "tuple"])
@@ -1932,6 +2045,10 @@ def gen_late_case(rng):
                     f["strann"] = True
             if fc:
                 f["fcons"] = fc
+                if rng.random() < 0.5 and not f.get("strann"):
+                    # the Field / Param inside Annotated[...], at any position among doc strings and foreign markers
+                    n = rng.choice([1, 2, 2, 3])
+                    f["annotated"] = {"n": n, "pos": rng.randrange(n), "salt": rng.randrange(2)}
             return f
         r = rng.random()
         if r < 0.45:
@@ -1961,6 +2078,8 @@ def gen_late_case(rng):
             case["strann"] = True
         if f.get("fcons") and via != "return":
             case["fcons"] = f["fcons"]
+            if f.get("annotated"):
+                case["annotated"] = f["annotated"]
         base = _base_of(f["ty"], lates)
         vals = _cons_values(rng, base, case.get("fcons")) if case.get("fcons") and rng.random() < 0.6 else None
         if vals:
@@ -2041,6 +2160,15 @@ def gen_fn_case(rng):
     params = []
     for name in ["p", "q"][: rng.randint(0, 2)]:
         f = {"name": name, "ty": pty()}
+        base = _base_of(f["ty"], [])
+        if base in ("int", "float", "str", "Decimal", "list") and rng.random() < 0.4:
+            cons0 = (f["ty"].get("rule") or {}).get("cons") or [] if isinstance(f["ty"], dict) else []
+            fc = gen_fcons(rng, base, cons0)
+            if fc:
+                f["fcons"] = fc
+                if rng.random() < 0.5:
+                    n = rng.choice([1, 2, 3])
+                    f["annotated"] = {"n": n, "pos": rng.randrange(n), "salt": rng.randrange(2)}
         params.append(f)
     for f in params[1:]:
         dv = pick_valid(rng, f["ty"])
@@ -2050,6 +2178,11 @@ def gen_fn_case(rng):
     if fn["varargs"] is None and fn["varkw"] is None:
         fn["varkw"] = pty()
     def pval(f):
+        if f.get("fcons") and rng.random() < 0.5:
+            try:
+                return E(rng.choice(_cons_values(rng, _base_of(f["ty"], []), f["fcons"])))
+            except Exception:
+                pass
         pv = pick_valid(rng, f["ty"]) if rng.random() < 0.85 else None
         return pv if pv is not None else gen_value(rng, f["ty"], None, 0.95)
     args = [pval(f) for f in params if "default" not in f or rng.random() < 0.7]
@@ -2112,10 +2245,58 @@ def gen_disc_case(rng):
     return {"ty": {"data": n}, "via": "init", "datas": datas, "value": {"m": [[E("item"), item]]}, "enums": ENUMS}
 
 
+FALSY = [E(""), E(0), E(0.0), E(b""), E(()), E([]), {"m": []}, False, E(Decimal("0")), {"q": [], "k": "set"}]
+
+
+def gen_gen_case(rng):
+    """a decorated generator function `-> Generator[Yield, Send, Return]`: the three slots, with falsy values of other types
+    (`''`, `0`, `0.0`, `b''`, `()`, `[]`, `{}`, `False`) among what is yielded, sent and returned"""
+    def sty():
+        r = rng.random()
+        if r < 0.45:
+            return {"t": rng.choice(["int", "int", "str", "float", "bool", "Decimal", "bytes"])}
+        if r < 0.7:
+            b = rng.choice(["int", "str", "float"])
+            return {"rule": {"base": {"t": b}, "cons": _strict(gen_cons(rng, b, allow_lax=False))}}
+        if r < 0.85:
+            return {"gen": "list", "args": [{"t": "int"}], "style": "typing"}
+        return {"gen": "dict", "args": [{"t": "str"}, {"t": "int"}], "style": "typing"}
+    gd = {"yield": sty() if rng.random() < 0.7 else None, "send": sty() if rng.random() < 0.4 else None,
+          "ret": sty() if rng.random() < 0.85 else None, "eager": rng.random() < 0.5}
+    if rng.random() < 0.25:
+        gd["async"] = True
+        gd["ret"] = None
+        gd["yield"] = gd["yield"] or sty()
+    if gd["yield"] is None and gd["ret"] is None:
+        gd["ret"] = sty()
+
+    def val(ty, falsy=0.3):
+        if rng.random() < falsy:
+            return rng.choice(FALSY)
+        if ty is None:
+            return rng.choice(pools()["int"])
+        pv = pick_valid(rng, ty) if rng.random() < 0.6 else None
+        return (pv if rng.random() < 0.5 else _as_text(pv)) if pv is not None else gen_value(rng, ty, None, 0.9)
+    n = rng.choice([0, 1, 1, 2]) if not gd.get("async") else rng.choice([1, 1, 2, 3])
+    value = {"yields": [val(gd["yield"], 0.15) for _ in range(n)],
+             "sends": [val(gd["send"], 0.15) if rng.random() < 0.7 else None for _ in range(n)] if gd["send"] is not None else [],
+             "ret": val(gd["ret"], 0.45) if rng.random() < 0.9 else None}
+    case = {"ty": "any", "via": "gen", "gen": gd, "value": value, "enums": ENUMS}
+    o = gen_opts(rng, unsafe_ok=False)
+    o.pop("addition", None)
+    if o:
+        case["opts"] = o
+    return case
+
+
 def gen_case(rng):
     r0 = rng.random()
     if r0 < 0.03:
         return gen_disc_case(rng)
+    if r0 < 0.035:
+        return gen_disc_case(rng)
+    if 0.24 <= r0 < 0.30:
+        return gen_gen_case(rng)
     if r0 < 0.10:
         return gen_late_case(rng)
     if r0 < 0.17:
@@ -2148,6 +2329,11 @@ def gen_case(rng):
     return case
 
 
+def _any_annotated(case):
+    return bool(case.get("annotated") or any(f.get("annotated") for d in case.get("datas", []) for f in d["fields"]) or
+                any(f.get("annotated") for f in (case.get("fn") or {}).get("params", [])))
+
+
 def gen_cases(tier, rng, n):
     cases = []
     # every origin as a bare leaf with its own source kinds, under the safe flag combinations
@@ -2174,11 +2360,22 @@ def gen_cases(tier, rng, n):
         for k in range(len(ENUMS)):
             for kind in ("enum_plain", "enum_mixin", "str_misc", "int", "str_word", "float"):
                 cases.append({"ty": {"enum": k}, "via": "transform", "value": rng.choice(pools()[kind]), "enums": ENUMS})
+    for c in cases:
+        c["future"] = rng.random() < 0.3
     while len(cases) < n:
         try:
-            cases.append(gen_case(rng))
+            c = gen_case(rng)
         except RecursionError:
             continue
+        # `from __future__ import annotations` in the declaring module (all annotations are strings) or real objects
+        c["future"] = rng.random() < 0.3
+        if c["via"] == "return" and rng.random() < 0.25:
+            c["async"] = True            # `async def`: the awaited result goes through the return annotation
+        if c["future"] and c.get("lates") and _any_annotated(c):
+            # a whole-string `Annotated['Later', ...]` that cannot be resolved at declaration never parses at all
+            # (TypeError on every call / "unrecognized type"): no result to judge
+            c["future"] = rng.random() < 0.1
+        cases.append(c)
     return cases
 
 
@@ -2220,12 +2417,27 @@ def _has_key(j, key) -> bool:
 _NEG_ZERO = re.compile(r"^\s*-0*(\.0*)?([eE][+-]?\d+)?\s*$")
 
 
+def _cv(case):
+    """all input values of a case as one encoded list"""
+    return {"q": case_values(case), "k": "list"}
+
+
+def case_values(case) -> list:
+    """the encoded input values of a case"""
+    v = case["value"]
+    if case["via"] == "fn":
+        return list(v["args"]) + list(v["kwargs"].values())
+    if case["via"] == "gen":
+        return list(v["yields"]) + list(v["sends"]) + [v["ret"]]
+    return [v]
+
+
 def negative_zero(case) -> bool:
     """`-0.0` has no form in Conv.lean's float codec (`FloatV.fin 0 0` is the only zero), so texts such as `str(-0.0)` differ:
     inputs holding a negative zero in any spelling get no verdict from the comparison (the oracle still sees them)"""
     vals = []
     v = case["value"]
-    for j in ([v] if case["via"] != "fn" else list(v["args"]) + list(v["kwargs"].values())):
+    for j in case_values(case):
         _walk_json_values(j, vals)
     for x in vals:
         if isinstance(x, float) and x == 0 and math.copysign(1, x) < 0:
@@ -2252,7 +2464,7 @@ def nested_mixin_member(case) -> bool:
             if "m" in j:
                 return any(walk(k, True) or walk(v, True) for k, v in j["m"])
         return False
-    return walk(case["value"], False)
+    return any(walk(j, False) for j in case_values(case))
 
 
 def _has_set(j) -> bool:
@@ -2471,7 +2683,7 @@ class C01(Check):
             # the offending value is an instance of the decorated class that was handed in (possibly inside a container):
             # final for @utype.apply, the constraints are skipped
             subs = []
-            for j in ([case["value"]] if case["via"] != "fn" else list(case["value"]["args"]) + list(case["value"]["kwargs"].values())):
+            for j in case_values(case):
                 _subvalues(j, subs)
             for x in list(subs):
                 # (texts that are read as JSON / a Python literal on the way hand their items in as well)
@@ -2519,20 +2731,20 @@ class C01(Check):
             if info["got"] != plain:
                 return None
             vals = []
-            _walk_json_values(case["value"], vals)
-            for k, i in _enum_members(case["value"]):
+            _walk_json_values(_cv(case), vals)
+            for k, i in _enum_members(_cv(case)):
                 try:
                     _walk_json_values(case["enums"][k]["members"][i][1], vals)      # `_attempt_from` unwraps a member to its value
                 except Exception:
                     pass
             texts = [x for x in vals if isinstance(x, str)] + [str(int(x)) for x in vals if isinstance(x, (bool, int))]
             if any(x is None or (isinstance(x, str) and x == "") or (isinstance(x, (int, float)) and x == 0) for x in vals) \
-                    or _has_empty(case["value"]):
+                    or _has_empty(_cv(case)):
                 texts.append("0")           # `_attempt_from_number` turns a falsy value into 0, which may be rendered as text on the way
             tokens = [t for x in texts for t in re.split(r"[\s,;:=&\[\](){}\"']+", x)] + texts     # texts are split / parsed into items
             if base["t"] == "int" and any(x.strip().lower() in c12.TRUE_WORDS + c12.FALSE_WORDS for x in tokens):
                 return "subclass-result-plain"            # to_integer: the literals 0 / 1 for the boolean words
-            if base["t"] == "time" and (texts or _has_key(case["value"], "dt") or _has_key(case["value"], "date")):
+            if base["t"] == "time" and (texts or _has_key(_cv(case), "dt") or _has_key(_cv(case), "date")):
                 return "subclass-result-plain"            # to_time: data.time() / to_datetime(text).time()
             if base["t"] == "timedelta" and texts:
                 return "subclass-result-plain"            # to_timedelta: sign * t(**kw) for a duration text
@@ -2572,13 +2784,23 @@ class C01(Check):
             return None                                   # exact-type pass-through of an unconstrained leaf
         opts = case.get("opts") or {}
         shape = _shape(d)
-        if case["via"] == "fn":
+        if case["via"] == "gen":
+            gd = case["gen"]
+            shape = "gen(" + ";".join(_shape(gd[x]) if gd.get(x) is not None else "-" for x in ("yield", "send", "ret")) + (";eager" if gd.get("eager") else "") + (";async" if gd.get("async") else "") + ")"
+            vc = f"{len(case['value']['yields'])}y{len(case['value']['sends'])}s:{_vclass(case['value']['ret'])}"
+        elif case["via"] == "fn":
             fn = case["fn"]
             shape = "fn(" + ",".join(_shape(f["ty"]) for f in fn["params"]) + ";*" + (_shape(fn["varargs"]) if fn.get("varargs") is not None else "-") + \
                 ";**" + (_shape(fn["varkw"]) if fn.get("varkw") is not None else "-") + ")"
             vc = f"{len(case['value']['args'])}+{len(case['value']['kwargs'])}"
         else:
             vc = _vclass(case["value"])
+        if _any_annotated(case):
+            shape += "|Annotated"
+        if case.get("future") is False:
+            shape += "|objann"
+        if case.get("async"):
+            shape += "|async"
         if case.get("lates"):
             shape += "|late:" + ",".join(_shape(l) for l in case["lates"]) + ("|fcons" if case.get("fcons") else "")
         if any(x.get("base") is not None for x in case.get("datas", [])):
@@ -2591,7 +2813,9 @@ class C01(Check):
         if "decl" in io:
             return "declaration rejected"
         d = case["ty"]
-        if case["via"] == "fn":
+        if case["via"] == "gen":
+            top = ("async " if case["gen"].get("async") else "") + "generator(" + "".join(x[0] if case["gen"].get(x) is not None else "-" for x in ("yield", "send", "ret")) + ")"
+        elif case["via"] == "fn":
             top = "fn(" + ("*" if case["fn"].get("varargs") is not None else "") + ("**" if case["fn"].get("varkw") is not None else "") + ")"
         elif d == "any" or "t" in d or "enum" in d or "obj" in d:
             top = "leaf"
